@@ -106,8 +106,15 @@ fn repo_dir() -> String {
     std::env::var("VERIF_REPO").unwrap_or_else(|_| "/repo".to_string())
 }
 
+/// a few phrases on top of the single characters of mini.src: without any phrase the three conversion engines cannot
+/// be told apart by what they display (the configuration probe needs them to differ)
+const EXTRA_PHRASES: &str = "測試 100 ㄘㄜˋ ㄕˋ\n策士 90 ㄘㄜˋ ㄕˋ\n你好 200 ㄋㄧˇ ㄏㄠˇ\n我們 300 ㄨㄛˇ ㄇㄣ˙\n測試一下 50 ㄘㄜˋ ㄕˋ ㄧ ㄒㄧㄚˋ\n";
+
 fn build_trie(src: &str, out: &str) {
-    let text = std::fs::read_to_string(src).expect("read dictionary source");
+    let mut text = std::fs::read_to_string(src).expect("read dictionary source");
+    if src.ends_with("mini.src") {
+        text.push_str(EXTRA_PHRASES);
+    }
     let mut b = TrieBuilder::new();
     for line in text.lines() {
         let line = line.split('#').next().unwrap_or("");
@@ -141,6 +148,9 @@ fn ensure_data(force: bool) {
     let d = data_dir();
     std::fs::create_dir_all(&d).expect("mkdir data");
     let r = repo_dir();
+    // data of an earlier layout (no phrases in tsi.dat) is rebuilt
+    let stamp = format!("{d}/with-phrases-v1");
+    let force = force || !std::path::Path::new(&stamp).exists();
     if force || !std::path::Path::new(&format!("{d}/word.dat")).exists() {
         build_trie(&format!("{r}/data/word.src"), &format!("{d}/word.dat"));
     }
@@ -152,6 +162,7 @@ fn ensure_data(force: bool) {
             std::fs::copy(format!("{r}/data/{f}"), format!("{d}/{f}")).expect("copy data");
         }
     }
+    let _ = std::fs::write(&stamp, "tsi.dat = mini.src + EXTRA_PHRASES\n");
 }
 
 // ------------------------------------------------------------------ context wrapper
@@ -342,7 +353,13 @@ fn fingerprint_ctx(c: &Ctx) -> Vec<String> {
 /// key sequences whose result depends on the options and on the conversion engine in effect (partial syllables:
 /// the fuzzy engine; a two-syllable phrase vs its single words: the simple engine; Space, symbols, letters: the
 /// boolean options, language mode, character form)
-const CONFIG_PROBE: [&str; 14] = ["hk4g4", "hg", "hk4g", "su3cl3", "su3cl", "h", "hk4g4hk4g4", "ji3g4", "su3 ", "hk4g4 ", "5j/ jp6", "a,1", "hk4g4\x1b", "Q<"];
+const CONFIG_PROBE: [&str; 19] = [
+    "hk4g4", "hg", "hk4g", "su3cl3", "su3cl", "h", "hk4g4hk4g4", "ji3g4", "su3 ", "hk4g4 ", "5j/ jp6", "a,1", "hk4g4\x1b", "Q<",
+    // two syllables with the list the simple engine opens dismissed after each: which engine converts shows
+    "hk4\x1bg4\x1b", "su3\x1bcl3\x1b",
+    // partial syllables ended with Space: only the fuzzy engine finds words for them
+    "h ", "h g ", "s c ",
+];
 
 fn config_fingerprint(c: &Ctx) -> Vec<String> {
     let mut out = vec![];
@@ -377,6 +394,9 @@ fn reported_configuration_in_effect(c: &Ctx) -> Option<String> {
     unsafe { chewing_set_selKey(r.0, sk.as_ptr(), 10) };
     let a = config_fingerprint(c);
     let b = config_fingerprint(&r);
+    if std::env::var("VERIF_C16_DEBUG").is_ok() {
+        eprintln!("probe this: {:?}\nprobe ref:  {:?}", a, b);
+    }
     for (i, (x, y)) in a.iter().zip(b.iter()).enumerate() {
         if x != y {
             return Some(format!("keys {:?} give (bopomofo/pre-edit/commit) {} on this context but {} on a fresh context configured with the values it reports: {}",
@@ -1022,8 +1042,10 @@ fn run_case(r: &mut Run, id: usize, case: &Case) {
     let mut idx = 0usize;
     let mut queue: std::collections::VecDeque<Op> = case.ops.iter().cloned().collect();
     // nothing committed (hence nothing learned) so far: the configuration probe compares with a fresh context
-    let mut clean = true;
+    // (a case that starts in the middle of a composition is not probed: the probe resets the context)
+    let mut clean = !case.mid;
     let mut probed_at = usize::MAX;
+    let mut changed_since_probe = false;
     while let Some(op) = queue.pop_front() {
         if let Op::Act(_) = op {
             clean = false;
@@ -1075,6 +1097,18 @@ fn run_case(r: &mut Run, id: usize, case: &Case) {
         emit(&format!("O R {} {} {} {}", id, idx, rc, fmt_obs(&after)));
         r.evaluations += 1;
         emit(&format!("M ST {} {} {}", (after != before) as i32, rc, op_replay(&op)));
+        // "a rejected value leaves everything unchanged": after a rejected call (the first one since the configuration
+        // last changed) the context must still behave like a fresh one configured with the values it reports
+        if after != before {
+            changed_since_probe = true;
+        }
+        if rc == -1 && clean && changed_since_probe && !matches!(op, Op::F | Op::Act(_)) {
+            changed_since_probe = false;
+            r.evaluations += CONFIG_PROBE.len() as u64;
+            if let Some(f) = reported_configuration_in_effect(&c) {
+                emit(&format!("X {} {}", json_str("reported-configuration-not-in-effect"), json_str(&f)));
+            }
+        }
         if let Some(f) = check_op(&op, rc, &before, &after) {
             emit(&format!("X {} {}", json_str(&format!("op-{}", op_replay(&op).split(' ').next().unwrap())), json_str(&f)));
         }
@@ -1325,11 +1359,21 @@ fn views(tier: &str, impl_path: &str, cases_path: &str, oracle_path: &str) -> i3
     fi.flush().unwrap();
     fc.flush().unwrap();
     let mut fo = std::fs::File::create(oracle_path).expect("create oracle");
+    // the configuration probe must tell the three conversion engines apart (else it says nothing about the engine)
+    let engine_fps: Vec<Vec<String>> = (0..3)
+        .map(|e| {
+            let c = new_ctx();
+            c.set_int("chewing.conversion_engine", e);
+            config_fingerprint(&c)
+        })
+        .collect();
+    let probe_distinguishes = engine_fps[0] != engine_fps[1] && engine_fps[1] != engine_fps[2] && engine_fps[0] != engine_fps[2];
     let hist = kinds.iter().map(|(k, v)| format!("{}:{{\"ops\":{},\"rejected\":{},\"changed_configuration\":{}}}", json_str(k), v.0, v.1, v.2)).collect::<Vec<_>>().join(",");
     writeln!(
         fo,
-        "{{\"cases\":{},\"evaluations\":{},\"aborts\":{},\"refs\":{},\"distinct_changing_ops\":{},\"ops_by_kind\":{{{}}},\"failures\":[{}]}}",
+        "{{\"cases\":{},\"config_probe_tells_the_engines_apart\":{},\"evaluations\":{},\"aborts\":{},\"refs\":{},\"distinct_changing_ops\":{},\"ops_by_kind\":{{{}}},\"failures\":[{}]}}",
         n_cases,
+        probe_distinguishes,
         evals,
         aborts,
         json_str(&refs_note),
